@@ -94,6 +94,31 @@ int main(int argc, char** argv)
                     ctx.each([&] { return chk.describe(D, av, {}); },
                              [&](mc::Report& rep) { chk.run_second(D, f, {}, av, {}, rep, idx); });
                 });
+        // sizes: many positionals (beyond a narrow counter / index type), exactly at and one above a large accepted count
+        for (auto& D0 : decls)
+        {
+            if (D0.accepted != UNLIMITED)
+                continue;
+            for (size_t cnt : { 127u, 128u, 255u, 256u, 257u, 1000u, 65537u })
+            {
+                if (a.asan() && cnt > 1000)
+                    continue;
+                std::vector<std::string> many;
+                for (size_t i = 0; i < cnt; i++)
+                    many.push_back("p" + std::to_string(i));
+                auto sep = many;
+                sep.insert(sep.begin() + cnt / 2, "--");
+                Decl exact = D0, tight = D0;
+                exact.accepted = static_cast<int>(cnt);
+                tight.accepted = static_cast<int>(cnt) - 1;
+                for (auto& pr : std::vector<std::pair<Decl, std::vector<std::string>>>{ { D0, many }, { D0, sep }, { exact, many }, { tight, many }, { tight, sep } })
+                {
+                    long idx = ctx.next;
+                    ctx.each([&] { return chk.describe(pr.first, pr.second, {}); },
+                             [&](mc::Report& rep) { chk.run_case(pr.first, pr.second, {}, rep, idx); });
+                }
+            }
+        }
         // the parser object held a declaration with the opposite greedy mode and another accepted count before (move
         // assignment), or was used before its options were declared
         for (auto& D : decls)
